@@ -178,3 +178,12 @@ PROPS["C03"] = dict(
         mc("types", "MC_C03.tla", "MC_C03_types.cfg", min_cases=100),
     ],
 )
+
+PROPS["C07"] = dict(
+    rule="BFS over input shapes (rank 0..4 extents 1..3, + rank 5 extents 1..2 thorough) x Reshape targets over {-1,0,1,2,3,4,6} of "
+         "length <= 3 (4 thorough), Flatten axes -rank-1..rank+1, Squeeze/Unsqueeze axes lists of length <= 2 (3 thorough) incl. negative, "
+         "unsorted, duplicate, out-of-range, Shape, dtype sweep over 14 types; each case in three execution modes; non-trivial = expected "
+         "tensor with more than one element or an expected error",
+    assumptions=["ONNX opset-13 operator documents as transcribed in spec/OpShape.tla"],
+    stages=lambda tier: [mc("shape-ops", "MC_C07.tla", "MC_C07_%s.cfg" % tier, min_cases=20000)],
+)
